@@ -19,10 +19,13 @@ Record trun := mkTR {
   tr_srclens : list Z         (* lengths of the source change feeds at that moment *)
 }.
 
-Inductive top := TW (k : nat) (es : list version) | TSW (es : list version) | TRun (r : trun).
+Inductive top := TW (k : nat) (es : list version) | TSW (es : list version) | TRun (r : trun)
+                 | TDrop      (* the sink dataset is deleted *)
+                 | TCreate.   (* ... and created again (empty) under the same name *)
 
 Record tcase := mkTC {
   c_members : nat; c_union : bool; c_los : list bool; c_batch : nat;
+  c_handlers : list handler;  (* onError handlers of both triggers of the job *)
   c_ops : list top;
   o_srcs : list feed          (* observed: the final change feeds of the source datasets *)
 }.
@@ -41,10 +44,22 @@ Definition opt_eqb (a b : option version) : bool :=
 Definition view_eqb (a b : feed) : bool :=
   forallb (fun i => opt_eqb (cur a i) (cur b i)) (ids a ++ ids b).
 
-Definition rcfg_of (c : tcase) (r : trun) : rcfg :=
-  mkR (tr_full r) (c_union c) (c_batch c) (c_los c) (tr_flt r).
-Definition op_of (c : tcase) (o : top) : op :=
-  match o with TW k es => OWrite k es | TSW es => OSinkWrite es | TRun r => ORun (rcfg_of c r) end.
+(** [present] = the sink dataset exists when the operation happens (the sink is looked up by
+    name at every run, so a run while it is absent behaves as [FNoSink]) *)
+Definition rcfg_of (c : tcase) (present : bool) (r : trun) : rcfg :=
+  mkR (tr_full r) (c_union c) (c_batch c) (c_los c) (if present then tr_flt r else FNoSink) (c_handlers c).
+Definition op_of (c : tcase) (present : bool) (o : top) : op :=
+  match o with
+  | TW k es => OWrite k es | TSW es => OSinkWrite es | TRun r => ORun (rcfg_of c present r)
+  | TDrop => ODropSink | TCreate => OCreateSink
+  end.
+Definition present_after (present : bool) (o : top) : bool :=
+  match o with TDrop => false | TCreate => true | _ => present end.
+Fixpoint ops_of (c : tcase) (present : bool) (ops : list top) : list op :=
+  match ops with
+  | [] => []
+  | o :: ops' => op_of c present o :: ops_of c (present_after present o) ops'
+  end.
 
 Definition run_agree (st : state) (out : option outcome) (r : trun) : bool :=
   match out with
@@ -56,33 +71,33 @@ Definition run_agree (st : state) (out : option outcome) (r : trun) : bool :=
   && zlist_eqb (map (fun f => Z.of_nat (length f)) (st_srcs st)) (tr_srclens r)
   && Z.eqb (Z.of_nat (length (st_sink st))) (tr_sinklen r).
 
-Fixpoint agree_ops (v : variant) (c : tcase) (st : state) (ops : list top) : bool * state :=
+Fixpoint agree_ops (v : variant) (c : tcase) (present : bool) (st : state) (ops : list top) : bool * state :=
   match ops with
   | [] => (true, st)
   | o :: ops' =>
-    let '(st', out) := step v st (op_of c o) in
+    let '(st', out) := step v st (op_of c present o) in
     let ok := match o with TRun r => run_agree st' out r | _ => true end in
-    let '(rest, stf) := agree_ops v c st' ops' in
+    let '(rest, stf) := agree_ops v c (present_after present o) st' ops' in
     (ok && rest, stf)
   end.
 
 Definition feed_eqb : feed -> feed -> bool := list_eqb version_eqb.
 
 Definition agree (v : variant) (c : tcase) : bool :=
-  let '(ok, stf) := agree_ops v c (init_state (c_members c)) (c_ops c) in
+  let '(ok, stf) := agree_ops v c true (init_state (c_members c)) (c_ops c) in
   ok && list_eqb feed_eqb (st_srcs stf) (o_srcs c).
 
 (** drift information only: the length of the sink's change feed after every run *)
-Fixpoint sinklen_ops (v : variant) (c : tcase) (st : state) (ops : list top) : bool :=
+Fixpoint sinklen_ops (v : variant) (c : tcase) (present : bool) (st : state) (ops : list top) : bool :=
   match ops with
   | [] => true
   | o :: ops' =>
-    let '(st', out) := step v st (op_of c o) in
+    let '(st', out) := step v st (op_of c present o) in
     match o with TRun r => Z.eqb (Z.of_nat (length (st_sink st'))) (tr_sinklen r) | _ => true end
-    && sinklen_ops v c st' ops'
+    && sinklen_ops v c (present_after present o) st' ops'
   end.
 Definition agree_sinklen (v : variant) (c : tcase) : bool :=
-  sinklen_ops v c (init_state (c_members c)) (c_ops c).
+  sinklen_ops v c true (init_state (c_members c)) (c_ops c).
 
 (** ** The executable spec, on the implementation's observations only *)
 
@@ -155,30 +170,51 @@ Definition run_origin_spec (srcs : list feed) (r : trun) : bool :=
                     | None => true
                     end) (ids (tr_sink r)).
 
-Definition run_spec (srcs : list feed) (prev : option trun) (r : trun) : bool :=
-  run_safe_spec srcs r && run_conv_spec srcs r && run_idem_spec prev r && run_origin_spec srcs r.
-
-Fixpoint spec_ops (srcs : list feed) (prev : option trun) (ops : list top) : bool :=
-  match ops with
-  | [] => true
-  | TRun r :: ops' => run_spec srcs prev r && spec_ops srcs (Some r) ops'
-  | _ :: ops' => spec_ops srcs None ops'
+Fixpoint forallb2 {A B} (f : A -> B -> bool) (la : list A) (lb : list B) : bool :=
+  match la, lb with
+  | [], [] => true
+  | a :: la', b :: lb' => f a b && forallb2 f la' lb'
+  | _, _ => false
   end.
 
-(** the token-safety part alone (what Proofs/C08CheckProofs.v derives from agreement) *)
-Fixpoint spec_safe_ops (srcs : list feed) (ops : list top) : bool :=
+(** a run while the sink dataset does not exist delivers nothing, so the persisted token must
+    not move forward (and there is no sink view) *)
+Definition run_absent_spec (last : list Z) (r : trun) : bool :=
+  match tr_sink r with [] => true | _ => false end
+  && forallb2 (fun tz lz => (tokpos tz <=? tokpos lz)%nat) (tr_tok r) last.
+
+(** [dirty] = the sink dataset was deleted under the job and no fullsync has completed since:
+    the incremental guarantees (token safety, convergence of incremental runs, idempotence) are
+    suspended - the token still describes the deleted dataset - until a fullsync completes,
+    which must converge from any state; [present] = the sink dataset exists; [last] = the token
+    observed after the previous run. *)
+Definition run_spec (srcs : list feed) (prev : option trun) (dirty present : bool) (last : list Z)
+    (r : trun) : bool :=
+  (dirty || run_safe_spec srcs r)
+  && ((dirty && negb (tr_full r)) || run_conv_spec srcs r)
+  && (dirty || run_idem_spec prev r)
+  && run_origin_spec srcs r
+  && (present || run_absent_spec last r).
+
+Fixpoint spec_ops (srcs : list feed) (prev : option trun) (dirty present : bool) (last : list Z)
+    (ops : list top) : bool :=
   match ops with
   | [] => true
-  | TRun r :: ops' => run_safe_spec srcs r && spec_safe_ops srcs ops'
-  | _ :: ops' => spec_safe_ops srcs ops'
+  | TRun r :: ops' =>
+    run_spec srcs prev dirty present last r
+    && spec_ops srcs (Some r) (dirty && negb (tr_full r && N.eqb (tr_out r) 0)) present (tr_tok r) ops'
+  | TDrop :: ops' => spec_ops srcs None true false last ops'
+  | TCreate :: ops' => spec_ops srcs None dirty true last ops'
+  | _ :: ops' => spec_ops srcs None dirty present last ops'
   end.
-Definition spec_safe (c : tcase) : bool := spec_safe_ops (o_srcs c) (c_ops c).
 
-(** well-formed cases: some ownership of ids by members makes every operation well-formed *)
+(** well-formed cases: some ownership of ids by members makes every operation well-formed
+    (in particular: the sink dataset is never deleted under the job, no log handler) *)
 Definition wf_case (c : tcase) : Prop :=
-  exists owner, Forall (wf_op owner (c_members c)) (map (op_of c) (c_ops c)).
+  exists owner, Forall (wf_op owner (c_members c)) (ops_of c true (c_ops c)).
 
-Definition spec_ok (c : tcase) : bool := spec_ops (o_srcs c) None (c_ops c).
+Definition spec_ok (c : tcase) : bool :=
+  spec_ops (o_srcs c) None false true (repeat (-1)%Z (c_members c)) (c_ops c).
 
 (** the 8 variants: equality x fullsync-token x in-batch-duplicate rule *)
 Definition v_cur : variant := mkVar EqLen FsKeep DupStoredAndLocal.     (* the pinned tree *)
@@ -196,7 +232,7 @@ Definition predict (v : variant) (c : tcase) :=
   map (fun so => (match snd so with Some o => out_code o | None => 99%N end,
                   map tok_code (st_tok (fst so)), st_sink (fst so)))
       (filter (fun so => match snd so with Some _ => true | None => false end)
-              (exec v (init_state (c_members c)) (map (op_of c) (c_ops c)))).
+              (exec v (init_state (c_members c)) (ops_of c true (c_ops c)))).
 
 (** [mismatches under each of the 8 variants (order of all_variants); spec failures on I;
      sink-feed-length drift under each variant] *)
